@@ -120,4 +120,64 @@ pub fn io_probe() {
     let _ = format!("{}", rl2tp::common::DecodeError::IncompleteAVP(7));
 }
 
-pub const HARNESSES: &[(&str, fn())] = &[("pure_history_9_8", pure_history_9_8), ("pure_history_14_13", pure_history_14_13), ("io_probe", io_probe)];
+/// Native-only: a call history over the public API in which every operation is
+/// evaluated once right after an unrelated "evicting" call and once right after
+/// each other operation; all results must agree.  Run by the C19 check when its
+/// MIR query finds shared mutable state (a lock, an atomic, a thread-local, a
+/// `static mut`) reachable from the API, to confirm an observable dependence.
+//@ props=C19 tier=native
+pub fn state_probe() {
+    let rv: T::RandomVector = [9, 8, 7, 6].into();
+    let rv2: T::RandomVector = [1, 1, 1, 1].into();
+    let ops: [&dyn Fn() -> Vec<u8>; 6] = [
+        &|| match AVP::VendorName("abc".to_owned().into()).hide(b"secret", &rv, &[1, 2], &[3; 16]) {
+            AVP::Hidden(h) => h.value,
+            _ => vec![],
+        },
+        &|| match AVP::HostName(vec![1, 2, 3].into()).hide(b"secret", &rv, &[1, 2], &[3; 16]) {
+            AVP::Hidden(h) => h.value,
+            _ => vec![],
+        },
+        &|| {
+            let h = AVP::Hidden(T::Hidden { attribute_type: 6, value: vec![0x5a; 16] });
+            format!("{:?}", h.reveal(b"secret", &rv)).into_bytes()
+        },
+        &|| {
+            let h = AVP::Hidden(T::Hidden { attribute_type: 9, value: vec![0x5a; 16] });
+            format!("{:?}", h.reveal(b"secret", &rv)).into_bytes()
+        },
+        &|| {
+            let m: Vec<u8> = vec![0x13, 0x20, 0x00, 0x14, 0, 2, 0, 3, 0, 4, 0, 5, 0x00, 0x08, 0, 0, 0, 0, 0, 1];
+            format!("{:?}", Message::<&[u8]>::try_read(&mut SliceReader::from(&m))).into_bytes()
+        },
+        &|| {
+            let mut w = VecWriter::new();
+            AVP::FirmwareRevision(0x1234.into()).write(&mut w);
+            AVP::MessageType(T::MessageType::Hello).write(&mut w);
+            w.data
+        },
+    ];
+    let evict = || {
+        let _ = AVP::TieBreaker(7.into()).hide(b"another secret", &rv2, &[], &[0; 16]);
+        let h = AVP::Hidden(T::Hidden { attribute_type: 5, value: vec![1; 16] });
+        let _ = h.reveal(b"another secret", &rv2);
+        let junk: Vec<u8> = vec![0x02, 0x20, 0, 1, 0, 2, 0xaa];
+        let _ = Message::<&[u8]>::try_read(&mut SliceReader::from(&junk));
+    };
+    let mut fresh: Vec<Vec<u8>> = Vec::new();
+    for op in ops.iter() {
+        evict();
+        fresh.push(op());
+    }
+    for (i, first) in ops.iter().enumerate() {
+        for (j, second) in ops.iter().enumerate() {
+            evict();
+            let _ = first();
+            let r = second();
+            let _ = i;
+            check!(r == fresh[j], "C19: an operation gives the same result whatever calls preceded it (no state kept between calls)");
+        }
+    }
+}
+
+pub const HARNESSES: &[(&str, fn())] = &[("pure_history_9_8", pure_history_9_8), ("pure_history_14_13", pure_history_14_13), ("io_probe", io_probe), ("state_probe", state_probe)];
